@@ -168,10 +168,16 @@ impl<T: El> Interp<T> {
         argc(2)?;
         let old = self.take_vec(i);
         self.dirty = true;
-        match scoped(move || MiniVec::leak(old)) {
-          Some(s) => {
+        // (ptr, len) leave the closure as integers: a null slice pointer (leak of an empty
+        // vector in release builds) would otherwise read back as `None`
+        let res = scoped(move || {
+          let s = MiniVec::leak(old);
+          (s.as_ptr() as usize, s.len())
+        });
+        match res {
+          Some((p, n)) => {
             tp!("= ");
-            let vals = show_list(s.as_ptr(), s.len(), "leaked", r);
+            let vals = show_list(p as *const T, n, "leaked", r);
             tl!("");
             flush_pending();
             Out::List(vals)
